@@ -11,7 +11,8 @@ OTHERWISE = None
 
 
 class Case:
-    def __init__(self, name, when=OTHERWISE, returns=None, raises=None, ensures=(), returns_pred=None, any_outcome=False, ensures_return=()):
+    def __init__(self, name, when=OTHERWISE, returns=None, raises=None, ensures=(), returns_pred=None, any_outcome=False, ensures_return=(),
+                 ensures_raise=()):
         self.name = name
         self.when = when            # clause over the PRE state (None = otherwise)
         self.returns = returns      # spec text: result == <returns>  (None: any value) -- normal return
@@ -20,11 +21,12 @@ class Case:
         self.ensures = list(ensures)
         self.any_outcome = any_outcome   # the case allows a normal return as well as any exception
         self.ensures_return = list(ensures_return)   # clauses that apply to normal returns only
+        self.ensures_raise = list(ensures_raise)     # clauses that apply to exceptional exits only (any_outcome cases)
 
 
 def case(name, when=OTHERWISE, returns=None, raises=None, ensures=(), returns_pred=None, any_outcome=False,
-         ensures_return=()):
-    return Case(name, when, returns, raises, ensures, returns_pred, any_outcome, ensures_return)
+         ensures_return=(), ensures_raise=()):
+    return Case(name, when, returns, raises, ensures, returns_pred, any_outcome, ensures_return, ensures_raise)
 
 
 class LoopSpec:
